@@ -181,9 +181,16 @@ impl Compiler
 			let resolved = resolver::resolve(declaration);
 			if let Ok(declaration) = &resolved
 			{
-				// If code generation fails, bail out.
-				self.generator.declare(&declaration)?;
-				self.fetch_declared_constants(&declaration);
+				match self.generator.declare(&declaration)
+				{
+					Ok(()) => self.fetch_declared_constants(&declaration),
+					// A declaration that uses an earlier declaration that
+					// failed to resolve cannot be generated, but then
+					// the errors of that declaration are reported.
+					Err(_) if acc.is_err() => (),
+					// If code generation fails otherwise, bail out.
+					Err(error) => return Err(error),
+				}
 			}
 			Ok(resolver::accumulate(acc, resolved))
 		})
